@@ -1,6 +1,7 @@
 import Vanguard.Lemmas.Source
 import Vanguard.Lemmas.Chunking
 import Vanguard.Lemmas.ReadSizes
+import Vanguard.Lemmas.WriteSplit
 import Vanguard.Model.World
 /-!
   C08 — Results do not depend on how bytes are split across reads, writes, flushes.
@@ -20,7 +21,13 @@ import Vanguard.Model.World
   same bytes and the same final error (`read_buffer_sizes_do_not_matter`).  Behind it: the stream of
   bytes a request state will hand out is defined without reference to read sizes (`Stream`), is
   unique (`Stream.det`), and every `Read(n)` hands out a prefix of it and leaves the rest (`trRead_step`).
-  Partial: the corresponding statement for the re-framing reader (`erRead`) and the writers (`erRead`, `trRead`,
+  **How the backend splits its response across `Write` calls** (re-encoding writer, the loop of
+  `transformingWriter.Write`): processing `a ++ b` in one call and processing `a`, then - unless that
+  call failed - `b` in a second call leave the client's connection (status, headers, body items, flush
+  positions, end) and the panic flag exactly the same, for every writer state, every split point
+  (inside an envelope, inside a message, between messages, empty pieces) and every backend output,
+  malformed or not (`write_split_does_not_matter`; `twLoop_prebuffer` is the key step).
+  Partial: the corresponding statements for the re-framing reader (`erRead`) and the re-framing writer (`erRead`, `trRead`,
   `ewLoop`, `twLoop`) is not yet a theorem; it is checked on the implementation *and* on the model by
   the `chunk` stream, which runs every scenario under its coarsest segmentation and under a random
   one (request pieces, read-buffer sizes down to 1, write pieces, flushes, empty writes) and demands
@@ -113,6 +120,16 @@ theorem read_buffer_sizes_do_not_matter (w : World) (pl : HandlePlan) (st : St) 
 theorem every_read_is_a_stream_step (w : World) (pl : HandlePlan) (F : Nat) (st : St) (r : TR) (n : Nat)
     (hn : 1 ≤ n) (hwf : r.WF) (herr : r.err = none) : StepOk w pl st r (trRead w pl F st r n) :=
   trRead_step w pl F st r n hn hwf herr
+
+/-- **Splitting the backend's output across two `Write` calls changes nothing the client sees**
+    (re-encoding writer; `thenLoop` = the second call, skipped when the first one failed; `Visible` = the
+    client's connection and the panic flag; `TwInv` is the writer invariant of C11, established by `reset`
+    and kept by the loop). -/
+theorem write_split_does_not_matter (w : World) (tb : Tables) (a b : Bytes) (F G : Nat) (st : St) (t : TW)
+    (hinv : C11.TwInv t) (hbuf : t.err = true ∨ t.buffer.isSome = true)
+    (hF : C11.muT t (a ++ b) < F) (hG : 2 * b.length + 2 ≤ G) :
+    Visible (twLoop w tb F st t (a ++ b)) = Visible (thenLoop w tb G b (twLoop w tb F st t a)) :=
+  twLoop_split w tb b G hG F st t a hinv hbuf hF
 
 /-- Non-vacuity (kernel-evaluated): a gRPC-Web client (codec `raw`) in front of a gRPC backend (codec
     `hexa`), body = one frame `00 00 00 00 02 | 07 08` in two pieces.  A fresh reader is well-formed; a
